@@ -9,7 +9,7 @@ and the scalar path; the str constructor uses the same table; from_dna_only_stri
 runs for every validity pattern; from_acgt_bytes_hashn leaves ACGT untouched and substitutes (hash(name, position) % 4)
 with a fixed-key hasher, no random state reachable."""
 import os
-from .. import dt_strings
+from .. import dt_strings, lemmas
 
 ASSUMPTIONS = ["Intel's documented semantics of the 16 AVX2 intrinsics (models in pysa/avx.py)", "str input is ASCII (multi-byte UTF-8 is outside the statement)",
                "slice::chunks(32) yields full chunks followed by at most one short chunk (std contract, modelled)"]
@@ -24,3 +24,6 @@ def run(F, rep):
     rep.run(dt_strings.dna_only_runs, F, rep, "C16.4", maxn=7 if thorough else 5)
     rep.run(dt_strings.hashn_table, F, rep, "C16.5")
     rep.run(dt_strings.from_str_lemmas, F, rep, "C16.6")
+    # "rendering back yields the upper-cased input with every non-ACGT byte replaced by A": to_ascii_vec / to_string / Display / Debug write
+    # the letter of base i at position i, for lengths around and on the storage-word boundaries
+    rep.run(lemmas.dnastring_render_lemmas, F, rep, "C16.7")
